@@ -25,26 +25,18 @@ CONN = "Connection"
 
 def r1(tree, rep):
     fn = tree.func(TR, CONN, "_decrypt_record")
-    g = build(fn)
-    tests = []
-    for n in g.nodes(lambda s: isinstance(s, ast.If)):
-        t = g.stmt[n].test
-        if isinstance(t, ast.Compare) and len(t.ops) == 1 and isinstance(t.ops[0], (ast.NotEq, ast.Eq)):
-            sides = [t.left, t.comparators[0]]
-            ctr = [x for x in sides if is_self_attr(x, "next_receive_nonce")]
-            oth = [x for x in sides if not is_self_attr(x, "next_receive_nonce")]
-            if len(ctr) == 1 and len(oth) == 1:
-                v = expand(fn, oth[0])
-                src = hex_int_of(v)
-                sb = slice_bounds(src) if src is not None else None
-                if sb and isinstance(sb[0], ast.Name) and sb[0].id in params(fn) and sb[1] is None:
-                    tests.append((n, isinstance(t.ops[0], ast.NotEq), sb[2]))
+    g = build(fn, split=True)
+    from ..cfg import cmp_atom
+
+    def _is_record_nonce(e):
+        # the big-endian integer parsed from <record parameter>[:NONCE_SIZE] (directly or through locals)
+        v = expand(fn, e) if not is_self_attr(e) else e
+        src = hex_int_of(v)
+        sb = slice_bounds(src) if src is not None else None
+        return bool(sb and isinstance(sb[0], ast.Name) and sb[0].id in params(fn) and sb[1] is None)
+    nonce_ok = cmp_atom(_is_record_nonce, lambda e: is_self_attr(e, "next_receive_nonce"))
     dec = g.call_nodes(lambda c: isinstance(c.func, ast.Attribute) and c.func.attr == "decrypt" and is_self_attr(c.func.value, "receive_box"))
-    ok = len(tests) == 1 and len(dec) == 1
-    if ok:
-        n, noteq, width = tests[0]
-        bad_lab, good_lab = ('T', 'F') if noteq else ('F', 'T')
-        ok = g.branch_always_raises(n, bad_lab) and g.branch_never_reaches(n, bad_lab, dec) and not g.guarded_by([n], dec, good_lab)
+    ok = len(dec) == 1 and not g.only_when(dec, nonce_ok, True) and g.when_always_raises(nonce_ok, False)
     rep.check("C06.R1", "_decrypt_record: decrypt is reachable only when the record's nonce equals next_receive_nonce; "
               "the unequal edge raises", ok, site(fn, TR), key="C06.R1:_decrypt_record:nonce-guard",
               what="a record whose nonce is not the expected counter value (replayed, dropped, reordered) can be decrypted and delivered")
@@ -149,9 +141,14 @@ def r3(tree, rep):
     # len(self.buf) < K guards and slices
     k_guard = []
     for n in ast.walk(rd):
-        if isinstance(n, ast.Compare) and len(n.ops) == 1 and isinstance(n.ops[0], ast.Lt) and isinstance(n.left, ast.Call) \
-                and dotted(n.left.func) == "len" and is_self_attr(n.left.args[0], "buf"):
-            k_guard.append(n.comparators[0])
+        # "fewer than K bytes buffered": len(self.buf) < K, K > len(self.buf), and the negations len(self.buf) >= K, K <= len(self.buf)
+        if isinstance(n, ast.Compare) and len(n.ops) == 1:
+            l, r, op = n.left, n.comparators[0], type(n.ops[0])
+            is_len = lambda e: isinstance(e, ast.Call) and dotted(e.func) == "len" and len(e.args) == 1 and is_self_attr(e.args[0], "buf")
+            if is_len(l) and op in (ast.Lt, ast.GtE):
+                k_guard.append(r)
+            elif is_len(r) and op in (ast.Gt, ast.LtE):
+                k_guard.append(l)
     lens = [n for n in ast.walk(rd) if isinstance(n, ast.Assign) and hex_int_of(n.value) is not None]
     ok = len(lens) == 1 and len(k_guard) == 2
     if ok:
@@ -163,6 +160,9 @@ def r3(tree, rep):
         if ok:
             g0 = eval_int(k_guard[0])
             g1 = k_guard[1]
+            if isinstance(g1, ast.Name):
+                g1 = resolve_local(rd, g1)        # end = N + length
+            nplus = g1
             ok = g0 == N and isinstance(g1, ast.BinOp) and isinstance(g1.op, ast.Add) and eval_int(g1.left) == N \
                 and isinstance(g1.right, ast.Name) and g1.right.id == lvar
             # the slices: record = buf[N:N+length]; buf = buf[N+length:]
@@ -170,6 +170,8 @@ def r3(tree, rep):
             rec = [s for s in sl if s[1] is not None and s[2] is not None]
             rest = [s for s in sl if s[1] is not None and s[2] is None]
             def is_n_plus_len(e):
+                if isinstance(e, ast.Name):
+                    e = resolve_local(rd, e)
                 return isinstance(e, ast.BinOp) and isinstance(e.op, ast.Add) and eval_int(e.left) == N and isinstance(e.right, ast.Name) and e.right.id == lvar
             ok = ok and len(rec) == 1 and len(rest) == 1 and eval_int(rec[0][1]) == N and is_n_plus_len(rec[0][2]) and is_n_plus_len(rest[0][1])
             widths.add(N)
@@ -290,12 +292,11 @@ def r5(tree, rep):
               "the queued records oldest-first", ok, site(cc, TR), key="C06.R5:connectConsumer:order",
               what="records arriving while the consumer is being attached can overtake queued ones")
     wc = tree.func(TR, CONN, "_writeToConsumer")
-    g = build(wc)
+    g = build(wc, split=True)
     cb = g.call_nodes(lambda c: isinstance(c.func, ast.Attribute) and c.func.attr == "callback")
-    tests = [n for n in g.nodes(lambda s: isinstance(s, ast.If)) if isinstance(g.stmt[n].test, ast.Compare)
-             and is_self_attr(g.stmt[n].test.left, "_consumer_bytes_written") and isinstance(g.stmt[n].test.ops[0], ast.GtE)
-             and is_self_attr(g.stmt[n].test.comparators[0], "_consumer_bytes_expected")]
-    ok = bool(cb) and bool(tests) and not g.guarded_by(tests, cb, 'T')
+    from ..cfg import ge_atom
+    reached = ge_atom(lambda e: is_self_attr(e, "_consumer_bytes_written"), lambda e: is_self_attr(e, "_consumer_bytes_expected"))
+    ok = bool(cb) and not g.only_when(cb, reached, True)
     rep.check("C06.R5", "_writeToConsumer fires the consumer Deferred only once written >= expected", ok, site(wc, TR),
               key="C06.R5:_writeToConsumer:threshold")
     wr = g.call_nodes(lambda c: dotted(c.func) == "self._consumer.write")
